@@ -83,6 +83,12 @@ FIRST_MISSED = {
     "C13-8": "no check reported it -> KA-5: WithKeepalivePing is an argument of the single (list-replacing) WithTimeoutOptions call",
     "C16-7": "own property silent (reported by C15/C08 DUPLEX) -> C16 shares DUPLEX",
     "C20-7": "no check reported it -> TMO-3: the sample of a retransmitted packet is deleted unconditionally under resent, keyed by the packet's Seq",
+    "C15-9": "own property silent (reported by C08 NONCE/ROT-SIB) -> C15 imports C08",
+    "C15-10": "no check reported it -> PAIR: every successful return of ReadMessage has passed ReadHeader and ReadBody, and the reader is handed to nothing else",
+    "C05-10": "own property silent (reported by C12 EXIT) -> C05 and C06 import C12",
+    "C11-9": "no check reported it -> RETRY: initAccountCipherBox precedes every attempt to open the stream (no remembered 'already created'); C11 shares RETRY",
+    "C11-10": "no check reported it -> EXCL: temporaryError.Temporary is the constant true and Accept wraps the constructors' errors in it",
+    "C10-9": "no check reported it -> GBNHS-5: the re-arm send on the token channel is non-blocking (select with default)",
     "C06-3": "no check reported it -> RATELIMIT: once lastResend is refreshed the packets are transmitted",
 }
 
